@@ -14,10 +14,10 @@ CHECK = {
          'under random schedules (non-trivial: >= 2 context switches) or as free-running goroutines under the race detector. fault: 14 fixed histories, the '
          'operation under test repeated with its k-th mutating storage operation on a principal document failing before/after apply, for every k.',
  'parts': [
-   {'name': 'sequential', 'pkg': 'rest', 'race': False, 'run': '^TestVerif_C03_Sequential$', 'timeout_q': 900, 'timeout_t': 3000, 'env': _ENV},
+   {'name': 'sequential', 'pkg': 'rest', 'race': False, 'run': '^TestVerif_C03_Sequential$', 'timeout_q': 900, 'timeout_t': 5400, 'env': _ENV},
    {'name': 'systematic', 'pkg': 'rest', 'race': False, 'run': '^TestVerif_C03_Systematic$', 'timeout_q': 600, 'timeout_t': 3000, 'env': _ENV},
    {'name': 'fault', 'pkg': 'rest', 'race': False, 'run': '^TestVerif_C03_Fault$', 'timeout_q': 600, 'timeout_t': 3000, 'env': _ENV},
-   {'name': 'concurrent', 'pkg': 'rest', 'race': True, 'run': '^TestVerif_C03_Concurrent$', 'timeout_q': 900, 'timeout_t': 3000, 'env': _ENV},
+   {'name': 'concurrent', 'pkg': 'rest', 'race': True, 'run': '^TestVerif_C03_Concurrent$', 'timeout_q': 900, 'timeout_t': 5400, 'env': _ENV},
  ],
  'min_evals': 800,
  'min_counters': {
